@@ -229,7 +229,11 @@ def gen_spec(rng, tier, max_nodes=None, parts=1, with_points=True, kinds=None, f
         if kind == "implicit":
             # class level requires / optional, prepended to the decorator's
             node["cls_req"] = rng.sample(prev, min(len(prev), rng.randint(0, 2)))
-            node["cls_opt"] = rng.sample(prev, min(len(prev), rng.randint(0, 1)))
+            # the type-level optional dependency is preferably one the decorator does not name as well: then the type-level
+            # declaration is the ONLY thing that orders the two components
+            declared = set(node["cls_req"]) | set(opt) | set(x for w in written for x in (w if isinstance(w, list) else [w]))
+            fresh = [j for j in prev if j not in declared]
+            node["cls_opt"] = ([rng.choice(fresh)] if fresh and rng.random() < 0.8 else rng.sample(prev, min(len(prev), 1))) if rng.random() < 0.7 else []
         r = rng.random()
         if r < fault_rate:
             outcome = rng.choice(OUTCOMES_FAULT)
